@@ -852,9 +852,8 @@ func (fc *funcContext) translateResults(results []ast.Expr) string {
 		default:
 			return v
 		}
-		switch astutil.RemoveParens(result).(type) {
-		case *ast.CompositeLit, *ast.CallExpr:
-			return v // already a fresh value
+		if fc.isFreshValue(result) {
+			return v
 		}
 		return fmt.Sprintf("$clone(%s, %s)", v, fc.typeName(t))
 	}
